@@ -666,6 +666,12 @@ def coldsched_trials(p, tier):
     look = [i for i, d in enumerate(p) if d["fn"] in LOOKUP_FNS]
     api = [i for i, d in enumerate(p) if d.get("grp", "").startswith(("api:DE", "listed:")) and d["fn"] in ("iban", "iban_lookup")]
     pairs = [(rng.choice(look), rng.choice(api)), (rng.choice(api), rng.choice(look)), (rng.choice(look), rng.choice(look))]
+    # ... and: whatever the first call builds in file order, the second one asks for the last record of the bank
+    # list (and the other way round)
+    last = [i for i, d in enumerate(p) if d.get("grp") == "edge:last"]
+    first_ = [i for i, d in enumerate(p) if d.get("grp") == "edge:first"]
+    if last and first_:
+        pairs += [(rng.choice(first_), last[0]), (rng.choice(look), last[1 % len(last)]), (last[-1], rng.choice(first_))]
     if tier != "quick":
         pairs += [(rng.choice(look + api), rng.choice(look + api)) for _ in range(9)]
     ks = COLD_K if tier != "quick" else COLD_K[::2] + [121393]
